@@ -155,6 +155,8 @@ def run(ctx):
     _roles.rule_A_NAMES(ctx, modules=('conversion::string::impl_enum::parser', 'conversion::string::impl_lexical::parser', 'conversion::string::impl_enum::macros', 'conversion::string::impl_lexical::macros'))
     import lskel as _lskel
     _lskel.rule_L_SKELETON(ctx, which=('lexical',), floor=10)
+    import tables as _t3
+    _t3.rule_T_SPACE(ctx, _t3.Tables(ctx), models=("enum", "lex"))
     ctx.undecided = ["that removing ALL spaces never glues two tokens for every value (the copula look-ahead and identifier classes make "
                      "this value-dependent)", "the macro's whitespace stripping is an instance of `remove all spaces` and has no separate rule"]
     ctx.assumptions = ["the flag correlation modelled by the typestate (ok = match result {Ok=>true,Err=>false}) is the only one the parser's macros create"]
